@@ -768,7 +768,8 @@ loop:
 				// HEADERS frame and streams that are reserved using PUSH_PROMISE.
 				if fr.Type() == FrameHeaders {
 					openStreams++
-					sc.lastID = fr.Stream()
+					// writeGoAway reads it from the read loop and the idle timer
+					atomic.StoreUint32(&sc.lastID, fr.Stream())
 				}
 
 				sc.createStream(sc.c, fr.Type(), strm)
@@ -970,7 +971,15 @@ func (sc *serverConn) writeGoAway(strm uint32, code ErrorCode, message string) {
 
 	fr := AcquireFrameHeader()
 
-	ga.SetStream(strm)
+	// The last-stream-id tells the peer which of its streams may have been acted
+	// on, and so which it must not replay elsewhere: never less than the newest
+	// stream that was opened, whichever stream the error is about.
+	last := atomic.LoadUint32(&sc.lastID)
+	if strm > last {
+		last = strm
+	}
+
+	ga.SetStream(last)
 	ga.SetCode(code)
 	ga.SetData([]byte(message))
 
@@ -979,7 +988,7 @@ func (sc *serverConn) writeGoAway(strm uint32, code ErrorCode, message string) {
 	sc.write(fr)
 
 	if strm != 0 {
-		atomic.StoreUint32(&sc.closeRef, sc.lastID)
+		atomic.StoreUint32(&sc.closeRef, atomic.LoadUint32(&sc.lastID))
 	}
 
 	atomic.StoreInt32((*int32)(&sc.state), int32(connStateClosed))
